@@ -144,7 +144,11 @@ def check_epoch_df(case, rec):
         sig_len = L * (-(-(last + case['sig_len'][1] % 7) // L))
     else:
         sig_len = last + 1 + case['sig_len'][1] % 40
-    if sig_len // L > 120:
+    if case.get('many_epochs'):
+        # far more epochs than cycles: very short epochs, most of them empty, the recording continuing long after the last cycle
+        L = 2 + case['many_epochs'] % 2
+        sig_len = max(sig_len, L * (258 + case['many_epochs'] * 7))
+    elif sig_len // L > 120:
         L = max(L, -(-sig_len // 120))      # keep the number of epochs bounded (each epoch is a DataFrame)
     keep = flat.copy(deep=True)
     epochs = guarded(epoch_df, flat, sig_len, L)
@@ -169,7 +173,8 @@ def strat_epoch_df(draw, tier):
     return {'table': table, 'index': draw(st.sampled_from(['range', 'range', 'offset', 'repeated'])),
             'row_order': draw(st.sampled_from(['time', 'time', 'time', 'by-feature', 'reversed'])),
             'epoch': [draw(st.sampled_from(['coincide', 'coincide', 'short', 'arbitrary'])), draw(st.integers(0, 500)), draw(st.integers(0, 5))],
-            'sig_len': [draw(st.sampled_from(['multiple', 'multiple', 'arbitrary'])), draw(st.integers(0, 100))]}
+            'sig_len': [draw(st.sampled_from(['multiple', 'multiple', 'arbitrary'])), draw(st.integers(0, 100))],
+            'many_epochs': draw(st.one_of(st.just(0), st.just(0), st.just(0), st.just(0), st.just(0), st.just(0), st.integers(1, 12)))}
 
 
 # ------------------------------------------------------------------------------------------------ axis=None
@@ -231,6 +236,10 @@ def check_axis_none(case, rec):
             d = gen.cf_kwargs(c)
             d.pop('return_samples')
             d['threshold_kwargs'] = gen.copy_json(ths[k])
+            if case.get('drop_th') and k >= 1 and (case['drop_th'] >> (k % 6)) & 1:
+                # an option set without threshold_kwargs: that epoch is labelled with the detector's defaults
+                d.pop('threshold_kwargs')
+                ths[k] = {}
             if case.get('stray_center') and k >= 1 and (k + case['stray_center']) % 2 == 0:
                 # a later epoch's option set names the other centring: documented to be ignored with a warning (the first one is
                 # used for the whole recording); everything else in that option set still applies to its epoch
@@ -309,7 +318,7 @@ def strat_axis_none(draw, tier):
             if c.get('bk'):
                 c['bk'].pop('min_n_cycles', None)
     return {'base': c, 'mode': mode, 'ths': ths, 'layout': draw(st.sampled_from(['C', 'C', 'F', 'T'])),
-            'second_call': draw(st.integers(0, 3)) == 0, 'stray_center': draw(st.integers(0, 2)), 'other_values': draw(st.integers(0, 2)) == 0,
+            'second_call': draw(st.integers(0, 3)) == 0, 'stray_center': draw(st.integers(0, 2)), 'drop_th': draw(st.one_of(st.just(0), st.just(0), st.integers(1, 63))), 'other_values': draw(st.integers(0, 2)) == 0,
             'epoch': [draw(st.sampled_from(['coincide', 'coincide', 'short', 'arbitrary', 'arbitrary'])), draw(st.integers(0, 500)), draw(st.integers(0, 5))]}
 
 
